@@ -1,6 +1,7 @@
 use crate::internal::common::resources::{ResourceId, ResourceRequest};
 use crate::internal::scheduler::TaskBatch;
 use crate::internal::server::core::{Core, CoreSplit};
+use crate::internal::server::task::TaskRuntimeState;
 use crate::internal::server::worker::Worker;
 use crate::internal::solver::{ConstraintType, LpSolution, LpSolver, Variable};
 use crate::resources::{CPU_RESOURCE_ID, ResourceAmount, ResourceRqId};
@@ -83,6 +84,23 @@ pub(crate) fn run_scheduling_solver(
 
     let n_workers = workers.len();
 
+    // A worker that was asked to give a pre-sent task back may still start it (the retract
+    // can come too late), so it is not free for a multi-node task until it has answered
+    let retracting_from: Set<WorkerId> = if task_batches
+        .iter()
+        .any(|b| request_map.get(b.resource_rq_id).is_multi_node())
+    {
+        task_map
+            .tasks()
+            .filter_map(|t| match &t.state {
+                TaskRuntimeState::Retracting { worker_id } => Some(*worker_id),
+                _ => None,
+            })
+            .collect()
+    } else {
+        Set::new()
+    };
+
     let mut solver = LpSolver::new(false);
 
     let mut placements: Map<(WorkerId, ResourceRqId, ResourceVariantId), Variable> = Map::new();
@@ -100,6 +118,7 @@ pub(crate) fn run_scheduling_solver(
             for (v_idx, rq) in rqv.requests_with_ids() {
                 if rq.is_multi_node() {
                     if worker.is_free()
+                        && !retracting_from.contains(&worker.id)
                         && worker.has_time_to_run(rq.min_time(), now)
                         && worker_groups
                             .get(&worker.configuration.group)
